@@ -424,6 +424,8 @@ type AttrQuery struct {
 	Issuer                    string
 	Subject                   string
 	SubjectFormat             string
+	SubjectSPNameQualifier    string // SPNameQualifier / NameQualifier attribute of the subject's NameID (and of an Issuer without text)
+	SubjectNameQualifier      string
 	Attrs                     []QAttr
 	SoapPfx                   string // "" = default namespace on Envelope
 	Header                    bool
@@ -438,10 +440,20 @@ func (q_ *AttrQuery) QueryNode() *Node {
 	if q_.Destination != "" {
 		root.Set("Destination", q_.Destination)
 	}
-	root.Add(s.a("Issuer").SetText(q_.Issuer))
+	iss := s.a("Issuer").SetText(q_.Issuer)
+	root.Add(iss)
 	n := s.a("NameID").SetText(q_.Subject)
 	if q_.SubjectFormat != "" {
 		n.Set("Format", q_.SubjectFormat)
+	}
+	if q_.SubjectSPNameQualifier != "" {
+		n.Set("SPNameQualifier", q_.SubjectSPNameQualifier)
+		if q_.Issuer == "" {
+			iss.Set("SPNameQualifier", q_.SubjectSPNameQualifier)
+		}
+	}
+	if q_.SubjectNameQualifier != "" {
+		n.Set("NameQualifier", q_.SubjectNameQualifier)
 	}
 	root.Add(s.a("Subject").Add(n))
 	for _, a := range q_.Attrs {
